@@ -23,7 +23,7 @@ var benignJSON []byte
 
 type benignResult struct {
 	ID     string   `json:"id"`
-	Status string   `json:"status"` // silent | alarm | stale | broken
+	Status string   `json:"status"` // silent | undecided (an instance within the tolerated one in ten left undecided; the check still passes) | alarm | stale | broken
 	Detail []string `json:"detail,omitempty"`
 }
 
@@ -37,27 +37,69 @@ func loadBenign() []Mutant {
 
 func allRuleNames() []string { return sortedKeys(rules) }
 
-// nonOK: obligation key -> status for everything that is not ok/info, plus rule-level errors.
+// nonOK judges the program the way `check` does, property by property (each property's rules, restricted to its
+// scope, with the vacuity floors and the one-in-ten bound on undecided instances): what would make some property's
+// check exit non-zero is an alarm ("violation" / "error"); an undecided instance within the bound is "undecided".
 func nonOK(p *Prog) map[string]string {
 	out := map[string]string{}
-	for _, rn := range allRuleNames() {
-		rr := runRule(p, rules[rn])
-		if rr.Err != "" {
-			out["ERROR:"+rn] = rr.Err
-		}
-		// the vacuity floor is part of the verdict too: a rule that lost its sites makes the check fail
-		nobl := 0
-		for _, o := range rr.Obligs {
-			if o.Status != Info {
-				nobl++
+	cache := map[string]ruleResult{}
+	for _, pid := range sortedKeys(properties) {
+		for _, rspec := range properties[pid].Rules {
+			rn, scope := rspec, ""
+			if i := strings.Index(rspec, "@"); i >= 0 {
+				rn, scope = rspec[:i], rspec[i+1:]
 			}
-		}
-		if nobl < rules[rn].Floor {
-			out["ERROR:"+rn+":floor"] = fmt.Sprintf("%d obligations < floor %d", nobl, rules[rn].Floor)
-		}
-		for _, o := range rr.Obligs {
-			if o.Status == Violation || o.Status == Unmodelled {
-				out[o.Key] = string(o.Status)
+			r := rules[rn]
+			if r == nil {
+				continue
+			}
+			res, ok := cache[rn]
+			if !ok {
+				res = runRule(p, r)
+				cache[rn] = res
+			}
+			obl := res.Obligs
+			if scope != "" {
+				var kept []Oblig
+				for _, o := range obl {
+					body := strings.TrimPrefix(o.Key, rn+":")
+					for _, pre := range strings.Split(scope, "|") {
+						if strings.HasPrefix(body, pre) {
+							kept = append(kept, o)
+							break
+						}
+					}
+				}
+				obl = kept
+			}
+			n, unm := 0, 0
+			for _, o := range obl {
+				switch o.Status {
+				case OK:
+					n++
+				case Violation:
+					n++
+					out[o.Key] = "violation"
+				case Unmodelled:
+					n++
+					unm++
+				}
+			}
+			if res.Err != "" {
+				out["ERROR:"+rn] = "error " + res.Err
+			}
+			if scope == "" && n < r.Floor || scope != "" && n == 0 {
+				out["ERROR:"+rn+":floor"] = fmt.Sprintf("error %d obligations < floor %d", n, r.Floor)
+			}
+			tooMany := n > 0 && unm*10 > n
+			for _, o := range obl {
+				if o.Status == Unmodelled {
+					if tooMany {
+						out[o.Key] = fmt.Sprintf("error undecided (%d of %d instances of %s for %s: more than one in ten)", unm, n, rn, pid)
+					} else if _, dup := out[o.Key]; !dup {
+						out[o.Key] = "undecided"
+					}
+				}
 			}
 		}
 	}
@@ -90,15 +132,23 @@ func runOneBenign(repo string, m Mutant, base map[string]string) benignResult {
 		return res
 	}
 	got := nonOK(p)
+	alarm := false
 	for k, st := range got {
 		if base[k] != st {
-			res.Detail = append(res.Detail, st+" "+k)
+			f := strings.Fields(st)
+			res.Detail = append(res.Detail, f[0]+" "+k)
+			if f[0] != "undecided" {
+				alarm = true
+			}
 		}
 	}
 	sort.Strings(res.Detail)
-	if len(res.Detail) > 0 {
+	switch {
+	case alarm:
 		res.Status = "alarm"
-	} else {
+	case len(res.Detail) > 0:
+		res.Status = "undecided"
+	default:
 		res.Status = "silent"
 	}
 	return res
@@ -205,7 +255,7 @@ func cmdBenign(args []string) int {
 			fmt.Printf("%-7s %-28s %s\n", r.Status, r.ID, strings.Join(r.Detail, " | "))
 		}
 	}
-	fmt.Printf("benign: total=%d silent=%d alarm=%d stale=%d broken=%d\n", len(results), cnt["silent"], cnt["alarm"], cnt["stale"], cnt["broken"])
+	fmt.Printf("benign: total=%d silent=%d undecided=%d alarm=%d stale=%d broken=%d\n", len(results), cnt["silent"], cnt["undecided"], cnt["alarm"], cnt["stale"], cnt["broken"])
 	if cnt["alarm"]+cnt["broken"]+cnt["stale"] > 0 {
 		return 1
 	}
@@ -218,7 +268,7 @@ func runBenignForThorough(repo, verif string, ruleSpecs []string) map[string]any
 	var results []benignResult
 	var err error
 	// the built-in edits, and the refactorings written by independent sub-agents (verif/benign80/<agent>/<n>/patch.diff)
-	for _, extra := range [][]string{nil, {"-patchdir", filepath.Join(verif, "benign80")}, {"-patchdir", filepath.Join(verif, "benign80b")}} {
+	for _, extra := range [][]string{nil, {"-patchdir", filepath.Join(verif, "benign80")}, {"-patchdir", filepath.Join(verif, "benign80b")}, {"-patchdir", filepath.Join(verif, "benign80c")}} {
 		args := append([]string{"benign", "-repo", repo, "-j", "8", "-json"}, extra...)
 		if extra != nil {
 			if _, e := os.Stat(extra[1]); e != nil {
@@ -271,8 +321,8 @@ func runBenignForThorough(repo, verif string, ruleSpecs []string) map[string]any
 		cnt[st]++
 	}
 	res := map[string]any{
-		"what":  "behaviour-preserving changes of today's sources: 160 refactorings written by independent sub-agents that knew nothing of the checker, in two rounds (benign80/, benign80b/: inverted conditions with swapped branches, if/else chains turned into switches or early returns, extracted and inlined helpers and locals, range loops for counting loops, renamed receivers and locals, reordered independent statements) and 40 built-in edits (renamed locals and receivers, commuted operands, a < b+1 for a <= b, extracted locals, reordered independent statements, reworded messages, an added helper, a deferred unlock in a closure, reordered YAML keys) applied through the overlay: none of the property's rules may report a violation, become undecided, lose an anchor or fall under its floor. Measures the checker only.",
-		"total": len(results), "silent": cnt["silent"], "alarm": cnt["alarm"], "stale": cnt["stale"], "broken": cnt["broken"],
+		"what":  "behaviour-preserving changes of today's sources: 240 refactorings written by independent sub-agents that knew nothing of the checker, in three rounds (benign80/, benign80b/, benign80c/: inverted conditions with swapped branches, if/else chains turned into switches or early returns, extracted and inlined helpers and locals, range loops for counting loops, renamed receivers and locals, reordered independent statements, loops over written-out tables, clamps as min/max, closures as method values) and 40 built-in edits (renamed locals and receivers, commuted operands, a < b+1 for a <= b, extracted locals, reordered independent statements, reworded messages, an added helper, a deferred unlock in a closure, reordered YAML keys) applied through the overlay: none of the property's rules may report a violation, lose an anchor, fall under its floor or leave more than one instance in ten undecided (what `check` fails on); instances left undecided within that bound are counted separately. Measures the checker only.",
+		"total": len(results), "silent": cnt["silent"], "undecided_but_passing": cnt["undecided"], "alarm": cnt["alarm"], "stale": cnt["stale"], "broken": cnt["broken"],
 	}
 	if len(alarms) > 0 {
 		res["alarms"] = alarms
